@@ -620,6 +620,10 @@ def run_l2(ops, nretries, peer0=(0, 1, 1, b''), full=True):
             return array.array('B', self.reply)
 
     FakeUsbDev.backend = Backend()
+    import threading
+    died = []
+    old_hook = threading.excepthook
+    threading.excepthook = lambda args: died.append(args.exc_type)
     try:
         if full:
             d.connect('radio://0/80/2M', None, hz.on_error)
@@ -630,11 +634,21 @@ def run_l2(ops, nretries, peer0=(0, 1, 1, b''), full=True):
             d._radio = cr.Crazyradio(device=_USB_PATCH[0][1])
             d._thread = rd._RadioDriverThread(d._radio, d.in_queue, d.out_queue, None, hz.on_error, d, None)
             d._thread.start()
-        if not hz.finished.wait(120):
-            raise RuntimeError('L2: script did not finish (radio thread stuck or dead)')
+        waited = 0.0
+        while not hz.finished.wait(0.05):
+            waited += 0.05
+            if not d._thread.is_alive():
+                if hz.finished.is_set():
+                    break
+                obs['died'] = (died[0].__name__ if died else 'an exception')
+                break
+            if waited > 20:
+                raise RuntimeError('closed run: script did not finish within 20 s (radio thread stuck: %d of %d transmissions done)'
+                                   % (hz.i, len(steps)))
         hz.teardown()
         d.close()
     finally:
+        threading.excepthook = old_hook
         rd.set_retries_before_disconnect(100)
     hz.close_step()
     lines = []
@@ -729,24 +743,26 @@ def down_view(frames):
     return out
 
 
-def property_failures(case, twin, obs, attempts=10):
+SAFELINK_REQ = bytes([0xff, 0x05, 0x01])
+
+
+def property_failures(case, twin, obs):
     """returns [(key, what, details)]"""
     fails = []
     ops, n = case['ops'], case['n']
     outcomes = obs['outcomes']
-    # negotiation as the peer saw it: confirmed at the first `ok` among the first `attempts` transmissions
-    neg_len, confirmed = min(attempts, len(outcomes)), False
-    for i, o in enumerate(outcomes[:attempts]):
-        if o == 'ok':
-            neg_len, confirmed = i + 1, True
-            break
-    neg_finished = confirmed or len(outcomes) >= attempts
+    if obs.get('died'):
+        fails.append(('thread-died', 'the radio thread died with %s: nothing is delivered any more and no link error is reported' % obs['died'],
+                      {'after_transmissions': len(outcomes)}))
+    # link start-up as seen on the air: the leading safelink requests; the peer confirms every one that gets through
+    neg_len = 0
+    while neg_len < len(obs['tx']) and obs['tx'][neg_len] == SAFELINK_REQ:
+        neg_len += 1
+    confirmed = any(o == 'ok' for o in outcomes[:neg_len])
     # safelink only if confirmed / needs_resending
-    if neg_finished and obs['needs_resending'] != (not confirmed):
-        fails.append(('needs-resending', 'needs_resending differs from "safelink was not confirmed"',
+    if obs['needs_resending'] != (not confirmed):
+        fails.append(('needs-resending', 'needs_resending differs from "the peer did not confirm safelink"',
                       {'confirmed': confirmed, 'needs_resending': obs['needs_resending']}))
-    if not neg_finished and obs['needs_resending'] is not True:
-        fails.append(('needs-resending', 'needs_resending cleared before the negotiation finished', {}))
     data_tx = obs['tx'][neg_len:]
     raw_frames = [bytes([h]) + bytes(d) for (h, d) in obs['accepted']]
     if not confirmed:
@@ -929,7 +945,7 @@ def gen_cases(ctx):
     import itertools
     rng = ctx.rng
     thorough = ctx.tier == 'thorough'
-    cases = []
+    cases = load_corpus()
     # (1) exhaustive: every outcome string x every submission mask, after a confirmed negotiation
     kmax_full = 7 if thorough else 6
     O = ['ok', 'up', 'ack']
@@ -971,6 +987,49 @@ def gen_cases(ctx):
 
 
 # ------------------------------------------------------------------------------------------------------
+# JSON form of a case (corpus files, witnesses, replays): bytes as hex strings
+def case_to_json(c):
+    def enc(x):
+        if isinstance(x, (bytes, bytearray)):
+            return {'hex': bytes(x).hex()}
+        if isinstance(x, (list, tuple)):
+            return [enc(y) for y in x]
+        if isinstance(x, dict):
+            return {k: enc(v) for k, v in x.items()}
+        return x
+    return enc(c)
+
+
+def case_from_json(j):
+    def dec(x):
+        if isinstance(x, dict) and set(x) == {'hex'}:
+            return bytes.fromhex(x['hex'])
+        if isinstance(x, list):
+            return tuple(dec(y) for y in x)
+        if isinstance(x, dict):
+            return {k: dec(v) for k, v in x.items()}
+        return x
+    c = dec(j)
+    if c.get('kind') == 'closed':
+        c['ops'] = list(c['ops'])
+    if c.get('kind') == 'l1':
+        c['steps'] = [{'apps': list(s['apps']), 'ans': s['ans']} for s in c['steps']]
+    return c
+
+
+def load_corpus():
+    import glob
+    import json
+    import os
+    here = os.path.dirname(os.path.dirname(os.path.abspath(__file__)))
+    out = []
+    for f in sorted(glob.glob(os.path.join(here, 'corpus', 'c01', '*.json'))):
+        j = json.load(open(f))
+        out.append(case_from_json(j['case'] if 'case' in j else j))
+    return out
+
+
+# ------------------------------------------------------------------------------------------------------
 # running cases (in worker processes: the real code runs real threads, one case at a time per process)
 def lean_requests(case):
     if case['kind'] == 'l1':
@@ -998,6 +1057,34 @@ def case_desc(case):
     return {'level': 'dec', 'usb': None if case['usb'] is None else case['usb'].hex(), 'arc': case['arc']}
 
 
+def _shrink_closed(case, key, budget=250):
+    """greedy delta-debugging of a failing closed-system script: drop operations while the same clause still fails"""
+    def fails_same(c):
+        if not c['ops'] or c['ops'][-1][0] != 'xmit':
+            return False
+        try:
+            _, fs = run_real(c)
+        except Exception:
+            return False
+        return any(k == key for (k, _, _) in fs)
+    best = dict(case)
+    runs = 0
+    size = max(1, len(best['ops']) // 2)
+    while size >= 1 and runs < budget:
+        i, changed = 0, False
+        while i < len(best['ops']) and runs < budget:
+            cand = dict(best)
+            cand['ops'] = best['ops'][:i] + best['ops'][i + size:]
+            runs += 1
+            if fails_same(cand):
+                best, changed = cand, True
+            else:
+                i += size
+        if not changed:
+            size //= 2
+    return best
+
+
 def _run_chunk(args):
     cases, with_lean = args
     import hashlib
@@ -1007,6 +1094,7 @@ def _run_chunk(args):
     def count(k, v=1):
         res['counts'][k] = res['counts'].get(k, 0) + v
     replies = None
+    shrunk = 0
     if with_lean:
         reqs, spans = [], []
         for c in cases:
@@ -1021,7 +1109,7 @@ def _run_chunk(args):
             except Exception as e:
                 import traceback
                 res['errors'].append('%s on %s' % (''.join(traceback.format_exception(type(e), e, e.__traceback__))[-1500:], str(case_desc(c))[:600]))
-                if len(res['errors']) > 3:
+                if len(res['errors']) > 1:
                     break
                 continue
             level = case_desc(c)['level']
@@ -1042,7 +1130,15 @@ def _run_chunk(args):
             if c['kind'] == 'closed':
                 count('%s:safelink=%s' % (level, 'no' if ' needs_resending=1' in real[-1] else 'yes'))
             for (key, what, det) in fails:
-                res['witnesses'].append((key, what, {'case': case_desc(c), 'details': det}))
+                cw = c
+                if c['kind'] == 'closed' and shrunk < 2 and key != 'thread-died':
+                    shrunk += 1
+                    cw = _shrink_closed(c, key)
+                    try:
+                        det = [d for (k, _, d) in run_real(cw)[1] if k == key][0]
+                    except Exception:
+                        cw = c
+                res['witnesses'].append((key, what, {'case': case_to_json(cw), 'details': det, 'ops': len(cw.get('ops', ()))}))
                 count('property-failure:' + key)
             if replies is not None:
                 a, b = spans[idx]
@@ -1051,7 +1147,8 @@ def _run_chunk(args):
                     j = next((i for i in range(min(len(model), len(real))) if model[i] != real[i]), min(len(model), len(real)))
                     ll = lean_requests(c)
                     res['disagreements'].append((level + '-real-vs-model',
-                                                 {'case': case_desc(c), 'requests': ll[max(0, j - 8):j + 1], 'first_diff_line': j},
+                                                 {'case': case_to_json(c) if len(ll) < 400 else case_desc(c),
+                                                  'requests': ll[max(0, j - 8):j + 1], 'first_diff_line': j},
                                                  model[j] if j < len(model) else '(missing)', real[j] if j < len(real) else '(missing)'))
     finally:
         _uninstall_usb()
@@ -1114,6 +1211,42 @@ def search(ctx):
     if results is None:
         _, results = _run_all(ctx, False)
         _report(ctx, results, False)
-    for r in results:
-        for (key, what, inp) in r['witnesses']:
-            ctx.witness(key, what, inp)
+    ws = [w for r in results for w in r['witnesses']]
+    ws.sort(key=lambda w: (w[2].get('ops', 10 ** 6), w[0]))      # smallest (shrunk) witnesses first
+    for (key, what, inp) in ws:
+        ctx.witness(key, what, inp)
+
+
+def replay(ctx, rp):
+    """./check C01 --replay <file>: re-run the recorded case on the current tree; True iff it STILL FAILS (the property
+    fails on the real code, or - when the Lean build is available - the model still disagrees with the real code)."""
+    import json
+    w = rp.get('witness') or {}
+    inp = w.get('input') or {}
+    if 'case' not in inp:
+        cs = [d['case'] for b in rp.get('broken', []) if b.get('kind') == 'correspondence'
+              for d in (json.loads(b['detail']) if b.get('detail', '').startswith('[') else []) if isinstance(d.get('case'), dict) and 'case' in d['case']]
+        if not cs:
+            print('replay file names no input (broken obligation only):', [b.get('name') for b in rp.get('broken', [])])
+            print('run ./check C01 to re-check the obligations')
+            return True
+        inp = cs[0]
+    case = case_from_json(inp['case'])
+    try:
+        real, fails = run_real(case)
+    finally:
+        _uninstall_usb()
+    for ln in real:
+        print('  real :', ln)
+    ok = not fails
+    for (key, what, det) in fails:
+        print('PROPERTY FAILS [%s]: %s %s' % (key, what, det))
+    try:
+        model = ctx.lean(DRIVER, lean_requests(case))
+        if model != real:
+            ok = False
+            j = next((i for i in range(min(len(model), len(real))) if model[i] != real[i]), min(len(model), len(real)))
+            print('MODEL DISAGREES at line %d: model=%r real=%r' % (j, model[j] if j < len(model) else None, real[j] if j < len(real) else None))
+    except Exception as e:
+        print('(Lean driver not available: %s)' % str(e)[:200])
+    return not ok
